@@ -9,7 +9,7 @@ from ..pipeline_oracle import classify_case, close_run, examine_pipeline, exc_na
 from ..runner import Outcome
 from . import Check
 
-WEIGHTS = {"rename": 14, "select": 8, "drop": 4, "mutate": 14, "arrange": 4, "filter": 5, "join": 6, "alias": 6,
+WEIGHTS = {"rename": 14, "select": 10, "drop": 5, "mutate": 14, "arrange": 4, "filter": 5, "join": 9, "alias": 6,
            "summarize": 3, "group_by": 2, "ungroup": 1, "slice_head": 1, "union": 2, "collect": 0}
 
 
@@ -37,7 +37,14 @@ def c09_case(draw, tier):
             continue
         for n, c in src.visible:
             cands.append(({"v": v, "n": n}, c))
-    cands = list(draw(st.permutations(cands)))[: (10 if deep else 7)] if cands else []
+    if cands:
+        # references to columns that are hidden but still in scope (the ones a join / subquery can mix up) and to
+        # columns that went out of scope come first, the rest is random
+        perm = list(draw(st.permutations(cands)))
+        hidden = [x for x in perm if x[1] in t.scope and x[1] not in vis]
+        gone = [x for x in perm if x[1] not in t.scope]
+        first = hidden[:3] + gone[:2]
+        cands = (first + [x for x in perm if x not in first])[: (10 if deep else 7)]
     probes = []
     for ref, cid in cands:
         probes.append({"ref": ref, "in_scope": cid in t.scope, "visible": cid in vis, "name": vis.get(cid),
